@@ -6,7 +6,7 @@ from .. import gen
 from ..common import Verdict, digest, rng_for, run_shards, seed, tier
 
 PROP = "C11"
-N = {"quick": 6000, "thorough": 150000}
+N = {"quick": 12000, "thorough": 200000}
 EXTRA_ALPHA = list("abcXYZ019_-. $@#\"'\\/:+[]{}%\t\n") + ["é", "ß", "ж", "Ж", "λ", "Ա", "ñ", "Ç", "ø", "İ", "ǅ"]
 NAMING_ROOT = ("name-shadows-import", "name-shadows-import:documented-reserved-name", "class-field-name-clash",
                "name-reserved-by-framework:pydantic-basemodel-attribute", "name-reserved-by-framework:attrs-self",
